@@ -50,10 +50,10 @@ def run(ctx):
         mask = const_int(sub.slice.right)
         if mask is None:
             mask = const_int(sub.slice.left)
-        tbl = None
+        tbl = sub.value if isinstance(sub.value, ast.Dict) else None
         name = dotted(sub.value)
         for st in ast.walk(ff.node):
-            if isinstance(st, ast.Assign) and dotted(st.targets[0]) == name \
+            if name and isinstance(st, ast.Assign) and dotted(st.targets[0]) == name \
                     and isinstance(st.value, ast.Dict):
                 tbl = st.value
         ctx.require(mask is not None and tbl is not None,
